@@ -1023,6 +1023,12 @@ func LockRelease(m *LockModel) Mode {
 		m.locked = false
 		return ModeReal
 	}
+	if !m.locked {
+		// The real primitive would bring the whole process down with an
+		// unrecoverable "fatal error"; in the simulation it is an ordinary
+		// panic of the task, so that the run is recorded, replayed and shrunk.
+		panic("fatal error: sync: unlock of unlocked mutex (reported by the lock model; the real runtime would abort the process)")
+	}
 	m.locked = false
 	return ModeReal
 }
@@ -1094,6 +1100,9 @@ func RLockRelease(m *LockModel) Mode {
 		}
 		m.readers--
 		return ModeReal
+	}
+	if m.readers <= 0 {
+		panic("fatal error: sync: RUnlock of unlocked RWMutex (reported by the lock model; the real runtime would abort the process)")
 	}
 	m.readers--
 	return ModeReal
